@@ -424,13 +424,14 @@ fn do_huge(args: &BTreeMap<String, String>) -> i32 {
     let pre: usize = arg(args, "pre", "0").parse().expect("--pre");
     let t0 = std::time::Instant::now();
     let page = 4096usize;
-    let total = (len + page - 1) / page * page + 2 * page;
+    let maplen = if what.starts_with("rounds:") { page } else { len };
+    let total = (maplen + page - 1) / page * page + 2 * page;
     // PROT_NONE everywhere, then the data part readable/writable: the slice ends exactly at the trailing guard page
     let base = unsafe { mmap(std::ptr::null_mut(), total, 0, 0x22 | 0x4000, -1, 0) };
     assert!(!base.is_null() && base as isize != -1, "mmap of {} bytes failed", total);
     let data_pages = total - 2 * page;
     assert_eq!(unsafe { mprotect(base.add(page), data_pages, 3) }, 0);
-    let start = unsafe { base.add(page + data_pages - len) };
+    let start = unsafe { base.add(page + data_pages - maplen) };
     scen::arena::CUR_RUN.store(0, std::sync::atomic::Ordering::Relaxed);
     scen::arena::CUR_OP.store(0, std::sync::atomic::Ordering::Relaxed);
     let ok;
@@ -522,8 +523,60 @@ fn do_huge(args: &BTreeMap<String, String>) -> i32 {
         if !ok {
             detail = format!("refused={} pos={:?} want={} usable={} bytes_equal={}", refused, pos, want, still_ok, probe == probe2);
         }
+    } else if let Some(dr) = what.strip_prefix("rounds:") {
+        // a double-round count no sweep can afford (2^31 and more: tens of seconds per block): refill4 against four
+        // single-block refills, the five calls on five threads; `len` is the counter the four blocks start at
+        use c2_chacha::guts::ChaCha;
+        let drounds: u32 = dr.parse().expect("rounds:<u32>");
+        let key = [0x42u8; 32];
+        let nonce = [7u8; 8];
+        let ctr = len as u64;
+        let mk = move |c: u64| {
+            let mut x = ChaCha::new(&key, &nonce);
+            x.set_stream_param(0, c);
+            x
+        };
+        let (wide, narrow) = std::thread::scope(|sc| {
+            let w = sc.spawn(move || {
+                let mut x = mk(ctr);
+                let mut out = [0u8; 256];
+                let r = kit::sim::guarded(|| x.refill4(drounds, &mut out));
+                (r, out.to_vec(), x.get_stream_param(0), x.get_stream_param(1))
+            });
+            let ns: Vec<_> = (0..4u64)
+                .map(|i| {
+                    sc.spawn(move || {
+                        let mut x = mk(ctr.wrapping_add(i));
+                        let mut out = [0u8; 64];
+                        let r = kit::sim::guarded(|| x.refill(drounds, &mut out));
+                        (r, out.to_vec(), x.get_stream_param(0), x.get_stream_param(1))
+                    })
+                })
+                .collect();
+            (w.join().unwrap(), ns.into_iter().map(|h| h.join().unwrap()).collect::<Vec<_>>())
+        });
+        let mut four = Vec::new();
+        for n in narrow.iter() {
+            four.extend_from_slice(&n.1);
+        }
+        let panics: Vec<String> = std::iter::once(&wide.0).chain(narrow.iter().map(|n| &n.0)).filter_map(|r| r.clone().err()).collect();
+        let first_bad = wide.1.iter().zip(four.iter()).position(|(a, b)| a != b);
+        let end_ok = wide.2 == narrow[3].2 && wide.3 == narrow[3].3 && wide.2 == ctr.wrapping_add(4);
+        ok = panics.is_empty() && first_bad.is_none() && end_ok;
+        if !ok {
+            detail = format!(
+                "drounds={} counter={:#x}: panics {:?}; first differing byte {:?} (block {:?}); counter after refill4 {:#x}, after the fourth refill {:#x}",
+                drounds,
+                ctr,
+                panics,
+                first_bad,
+                first_bad.map(|b| b / 64),
+                wide.2,
+                narrow[3].2
+            );
+        }
     } else {
-        eprintln!("--what hash:<Type>|cipher:<Kind>|exhaust:<Kind>");
+        eprintln!("--what hash:<Type>|cipher:<Kind>|exhaust:<Kind>|rounds:<double rounds>");
         return 2;
     }
     println!(
